@@ -141,8 +141,8 @@ EDGES = [
      "subslice(0, min(len, count)) of the very slice whose len is taken: 0 + min(len, count) <= len"),
     (VM + r"VolatileArrayRef::to_slice$", r"Overflow:Mul", r"^\$1\.nelem,VolatileArrayRef::element_size\(\$1\)$", "N",
      "constructor invariant: get_array_ref checked nelem*size_of::<T>() <= isize::MAX (C01 R1.4); `new`/`with_bitmap` are unsafe"),
-    (VM + r"VolatileArrayRef::copy_to_volatile_slice$", r"Overflow:Mul", r"^VolatileArrayRef::len\(\$1\),VolatileArrayRef::element_size\(\$1\)$", "N",
-     "constructor invariant as for to_slice"),
+    (VM + r"VolatileArrayRef::(copy_to_volatile_slice|ptr_guard|ptr_guard_mut)$", r"Overflow:Mul", r"^VolatileArrayRef::len\(\$1\),VolatileArrayRef::element_size\(\$1\)$", "N",
+     "constructor invariant as for to_slice: nelem*size_of::<T>() <= isize::MAX"),
     (VM + r"VolatileArrayRef::ref_at$", r"diverge", r"^panic!assert$", "P", "documented: panics when index is out of range (program logic)"),
     (VM + r"VolatileArrayRef::ref_at$", r"Overflow:Mul", r"^VolatileArrayRef::element_size\(\$1\),\$2$", "N",
      "index < nelem dominates and nelem*size_of::<T>() fits (constructor invariant)", r"Lt\(\$2,\$1\.nelem\)"),
